@@ -59,7 +59,8 @@ r8 = [i for i in ids if re.match(r"C\d\d-8K\d\d[ABC]$", i)]
 r9 = [i for i in ids if re.match(r"C\d\d-9[AB]$", i)]
 r10 = [i for i in ids if re.match(r"C\d\d-10M\d\d[ABC]$", i)]
 r11 = [i for i in ids if re.match(r"C\d\d-11[AB]$", i)]
-for name, grp in (("Round 1", r1), ("Round 2", r2), ("Round 3", r3), ("Round 4", r4), ("Round 5 (file-focused; id = property named by the agent - focus area - letter)", r5), ("Round 6 (theme-focused)", r6), ("Round 7 (theme-focused, second set of themes)", r7), ("Round 8 (theme-focused, third set of themes)", r8), ("Round 9 (one property each, 'beat the diligent tester')", r9), ("Round 10 (one source area each, same instruction)", r10), ("Round 11 (one property each again, told everything done before)", r11)):
+r12 = [i for i in ids if re.match(r"C\d\d-12[AB]$", i)]
+for name, grp in (("Round 1", r1), ("Round 2", r2), ("Round 3", r3), ("Round 4", r4), ("Round 5 (file-focused; id = property named by the agent - focus area - letter)", r5), ("Round 6 (theme-focused)", r6), ("Round 7 (theme-focused, second set of themes)", r7), ("Round 8 (theme-focused, third set of themes)", r8), ("Round 9 (one property each, 'beat the diligent tester')", r9), ("Round 10 (one source area each, same instruction)", r10), ("Round 11 (one property each again, told everything done before)", r11), ("Round 12 (six properties, the same instruction, in the last hour)", r12)):
     print("\n%s:\n" % name)
     table(grp)
     rr = rows(grp) if "--write-meta" not in sys.argv else []
